@@ -39,7 +39,11 @@ def make_ref_plotfile(ctx, rng, nspec, kind):
     return p
 
 
-def run_case(ctx, rep, spec, gradp, reactions, floor, source, model, start=None):
+FINISH = {None: None, "reversed": pools.order_reversed, "rot1": pools.order_rot(1)}    # delivery order of unordered results
+LAST = []       # the previous conversion of this process (class-level tables of the reader survive between objects)
+
+
+def run_case(ctx, rep, spec, gradp, reactions, floor, source, model, start=None, finish=None, check=True):
     from amr_kitchen.chk2plt.chk2plt import chk2plt
     root = ctx.newdir("c17_"); os.makedirs(root)
     chk = os.path.join(root, "chk00005")
@@ -47,7 +51,9 @@ def run_case(ctx, rep, spec, gradp, reactions, floor, source, model, start=None)
     before = tastelib.snapshot(chk)
     out = os.path.join(root, "out_plt")
     sp = SPNAMES[:spec["nspec"]]
-    case = {"spec": spec, "gradp": gradp, "reactions": reactions, "floor": floor, "source": source}
+    case = {"spec": spec, "gradp": gradp, "reactions": reactions, "floor": floor, "source": source, "finish": finish}
+    case["previous"] = list(LAST)
+    LAST[:] = [{k: v for k, v in case.items() if k != "previous"}]
     nonmono = any(k != "mono" for k in ["x"])  # layouts are random per subset; counted through features below
     rep.case({"s": spec, "g": gradp, "r": reactions, "f": floor, "src": source},
              nontrivial=(len(spec["levels"]) >= 2 or len(set(spec["dx0"])) > 1 or reactions))
@@ -55,7 +61,7 @@ def run_case(ctx, rep, spec, gradp, reactions, floor, source, model, start=None)
     rep.count("opts:" + ("G" if gradp else "-") + ("R" if reactions else "-") + ("F" if floor else "-"))
     kw = dict(species=list(sp)) if source == "list" else dict(target_plotfile=make_ref_plotfile(ctx, ctx.rng, spec["nspec"], source), species=[])
     try:
-        with alarm(300), quiet(), pools.controlled(start=start):
+        with alarm(300), quiet(), pools.controlled(start=start, finish=FINISH[finish]):
             chk2plt(chk, gradp=gradp, species_reactions=reactions, floor_massfracs=floor, pltdir=out, **kw)
     except Exception as e:
         rep.fail(f"chk2plt raised {type(e).__name__}: {e}", case,
@@ -64,6 +70,8 @@ def run_case(ctx, rep, spec, gradp, reactions, floor, source, model, start=None)
         return
     if tastelib.snapshot(chk) != before:
         rep.fail("the conversion wrote into the checkpoint directory", case)
+        return
+    if not check:
         return
     integral_time = float(spec["time"]) % 1 == 0
     try:
@@ -158,11 +166,15 @@ def run(ctx, rep, model=True):
         gradp, reactions, floor = [(True, False, True), (True, True, True), (False, False, False), (False, True, True),
                                    (True, True, False)][i % 5]
         source = ["list", "refY", "refIR"][i % 3]
-        run_case(ctx, rep, spec, gradp, reactions, floor, source, model, start=[None, pools.order_reversed][i % 2])
+        run_case(ctx, rep, spec, gradp, reactions, floor, source, model, start=[None, pools.order_reversed][i % 2],
+                 finish=[None, "reversed", "rot1"][(i // 2) % 3])
         if len(rep.violations) >= 10:
             return
 
 
 def replay(ctx, rep, obj, model=True):
     c = obj["case"]
-    run_case(ctx, rep, c["spec"], c["gradp"], c["reactions"], c["floor"], c["source"], model)
+    for h in c.get("previous") or []:
+        # the conversion that preceded the failing one in the same process
+        run_case(ctx, rep, h["spec"], h["gradp"], h["reactions"], h["floor"], h["source"], False, finish=h.get("finish"), check=False)
+    run_case(ctx, rep, c["spec"], c["gradp"], c["reactions"], c["floor"], c["source"], model, finish=c.get("finish"))
